@@ -44,6 +44,10 @@ CLAIMS = {
    text="Privacy.tla is model-checked by TLC (PayloadIsScopedPdu, SaltFresh, NoSpuriousRefusal over all histories of sends, encrypted replies, plaintext reports, timeouts, set_keys; the pinned DES defect is reproduced by DEV_DesNoReset). Every behaviour within the bound plus a run of 90-200 unanswered requests is replayed on real DES/AES sessions (MD5/SHA-1, password/master/localized keys, varying boots/time); each emitted msgData is decrypted by the reference cipher under the independently derived key/IV and TraceSession.tla (Props={C11}) requires the plaintext to decode to exactly the scoped PDU of the request followed by < 1 block of padding; encrypted agent replies must be delivered with their exact content.",
    note="DES-CBC / AES-128-CFB / key localisation are uninterpreted in the specification; the interpretation is a pure-Python reference validated on FIPS/RFC vectors and against the openssl CLI.",
    ref="DESIGN.md 5 C11", technique="TLC model checking of Privacy.tla + behaviour replay + TLC trace validation"),
+ "C12": dict(
+   text="KeySetup.tla is the dispatch specification (which derivation applies to which algorithm code / key type / key length, what must be refused); MC_KeySetup.tla (TLC) enumerates the 39204-entry table with design-level sanity checks. Entries are replayed on the real SnmpV3ClientSocket constructor and set_keys(); get_master_key / get_localized_key are called over password length classes {0,1,2,3,5,8,1000,2^20-1,2^20,2^20+1}, engine ids of 0..32 octets, both digests and invalid codes; the Python User/Md5Key/Sha1Key padding is exercised. TraceKeys.tla judges refusal (a documented Exception, never a PanicException) vs acceptance and equality of the returned octets with the uninterpreted terms Kmaster/Kul as interpreted by hashlib. The key actually installed is observed through the next emitted message, whose MAC and ciphertext TraceSession.tla verifies under the key the specification derives.",
+   note="The claim is structural (dispatch + refusals) plus a reference comparison of digest outputs on the explored inputs: MD5/SHA-1 are uninterpreted in the specification. Quick tier replays ~1/7 of the dispatch table.",
+   ref="DESIGN.md 5 C12", technique="TLC-enumerated dispatch table (KeySetup.tla) + TLC trace validation with uninterpreted digest terms"),
  "C13": dict(
    text="Usm.tla is model-checked by TLC (ViewFollowsAgent, StampFollowsAgent, EngineLearnedOnce, KeysLocalizedToLearned, GivenEngineUsedFromFirstMessage, NoRequestBeforeKeys) over all interleavings of probes, requests, accepted/lost replies, key installation and changes of the agent's identity and clock. The real sync (`with SnmpSession`) and async (`async with`) clients are driven through discovery -> set_keys -> time sync -> requests -> refresh() against a scripted v3 agent (engine ids of 5/17/32 octets, a second identity, changing boots/time, dropped replies) for {no auth, MD5, SHA-1} x {none, DES, AES} x {password, master, localized} x {engine id given, discovered}. TraceSession.tla reads the USM header of every successive request: engine id learned once or given, boots/time of the most recent accepted message, MAC valid and payload decryptable under keys localised to that engine id.",
    note="The socket inside SnmpSession is wrapped by a recording proxy (the library code itself is unmodified). Scenario enumeration (call sequences x agent plans) is done by the driver; quick tier runs 1/9 of the product.",
